@@ -96,3 +96,7 @@ pub mod zero {
         fn zeroize(&mut self) {}
     }
 }
+
+/// S-chan (tokio::sync::{mpsc, oneshot})
+#[path = "chan.rs"]
+pub mod chan;
